@@ -161,6 +161,54 @@ def rect_guard(ctx):
     ctx.ob('RECT-GUARD', AT + '::Atoms', 'the atom count is set by the constructor only', set(w) == {'__init__'}, str(w))
 
 
+def atoms_prop_scaled(ctx):
+    """System.atoms_prop(scale=True) by evaluation: the atom addressed by index= or a_id= (atom 0 included) is the only one read or written; box-relative values go through the
+    cell's two conversions"""
+    fn = ctx.fn(SYS, 'System.atoms_prop')
+    loc = SYS + '::System.atoms_prop'
+    cls_ = ctx.fn(SYS, 'System')
+    POS = symarray('p', (4, 3))
+    NEW = symarray('w', (3,))
+
+    class Bx(PyStub):
+        def position_cartesian_to_relative(self, c):
+            return np.asarray(c, dtype=object) * 2
+
+        def position_relative_to_cartesian(self, r):
+            return np.asarray(r, dtype=object) / 2
+
+    def run_(kw):
+        class At(PyStub):
+            def __init__(self):
+                self.view = {'atype': arr([1, 2, 1, 2]), 'pos': POS.copy()}
+        at = At()
+        obj = SymObj(cls_, {'atoms': at, 'box': Bx()}, 'self')
+        ev_ = SymEval(module_aliases(ctx.mod(SYS)))
+        ev_.globals = {'Atoms': 'AtomsClass'}
+        try:
+            live = [q for q in ev_.run_fn(fn, [obj], dict(kw)) if q.done == 'return']
+        except WouldRaise:
+            return 'refused', None, at
+        except Opaque as e:
+            raise AnalysisError('System.atoms_prop(scale=True) %s: %s' % (sorted(kw), e))
+        return ('accepted' if live else 'refused'), (live[0].ret if live else None), at
+    n = 0
+    for tag, sel, row in (('a_id=0', {'a_id': sp.Integer(0)}, 0), ('a_id=2', {'a_id': sp.Integer(2)}, 2), ('index=0', {'index': sp.Integer(0)}, 0), ('index=3', {'index': sp.Integer(3)}, 3)):
+        st_, ret, at = run_(dict(sel, key='pos', scale=True))
+        n += 1
+        ctx.ob('INDEXING', loc, 'scale=True, %s, get: the box-relative position of that one atom (shape (3,))' % tag, st_ == 'accepted' and np.shape(ret) == (3,) and equal(np.asarray(ret, dtype=object), POS[row] * 2, deep=False),
+               'returned shape %s' % (np.shape(ret) if ret is not None else None,), node=fn, key='scaled get ' + tag)
+        st_, ret, at = run_(dict(sel, key='pos', scale=True, value=NEW))
+        want = POS.copy()
+        want[row] = NEW / 2
+        n += 1
+        ctx.ob('INDEXING', loc, 'scale=True, %s, set: only that atom\'s position is written (the value unscaled through the cell)' % tag, st_ == 'accepted' and np.shape(at.view['pos']) == (4, 3) and equal(np.asarray(at.view['pos'], dtype=object), want, deep=False),
+               node=fn, key='scaled set ' + tag)
+    st_, ret, at = run_(dict(a_id=sp.Integer(0), index=sp.Integer(1), key='pos', scale=True))
+    ctx.ob('INDEXING', loc, 'scale=True: a_id and index together are refused (a_id=0 included)', st_ == 'refused', node=fn, key='scaled both')
+    ctx.floor('INDEXING/scaled', n, 8)
+
+
 def _class_fresh_summaries(ctx, rel, q, summaries, depth=0):
     """call summaries for the helper methods of the same class that q delegates to: '.name' -> fresh when every return of that method is fresh (computed recursively)"""
     out = dict(summaries)
@@ -532,7 +580,7 @@ def indexing(ctx):
     def table():
         return {'atype': TYP.copy(), 'pos': POS.copy(), 'tag': TAG.copy()}
     forms = [('integer index', I(2), [2]), ('last atom by -1', I(-1), [3]), ('negative integer', I(-3), [1]), ('first atom', I(0), [0]), ('slice', slice(1, 3), [1, 2]), ('list of indices', [3, 0], [3, 0]),
-             ('boolean mask', np.array([True, False, False, True]), [0, 3])]
+             ('boolean mask', np.array([True, False, False, True]), [0, 3]), ('boolean mask given as a plain list', [True, False, False, True], [0, 3]), ('tuple of an index array (np.where result)', (np.array([1, 3]),), [1, 3])]
     gi = ctx.fn(AT, 'Atoms.__getitem__')
     si = ctx.fn(AT, 'Atoms.__setitem__')
     for tag, index, rows in forms:
@@ -575,7 +623,7 @@ def indexing(ctx):
         ok = len(r) == 1 and equal(np.asarray(v['pos'], dtype=object), wantp, deep=False) and equal(np.asarray(v['tag'], dtype=object), wantt, deep=False) and [int(x) for x in v['atype']] == [int(x) for x in wanta]
         ctx.ob('INDEXING', AT + '::Atoms.__setitem__', '%s: every property of the given atoms (matched by name, whatever the order they were defined in) is written at the same rows %s, all other rows untouched' % (tag, rows), bool(ok), why,
                node=si, key='setitem ' + tag)
-    ctx.floor('INDEXING/forms', len(forms), 7)
+    ctx.floor('INDEXING/forms', len(forms), 9)
     # refusals of row assignment
     for tag, val in (('a value that is not an Atoms table', 'notatoms'), ('a table with another property set', 'otherkeys')):
         class Bad(PyStub):
@@ -638,4 +686,4 @@ def run(ctx):
     ctx.explanation = ('C06: guard dominance and who-may-write on the per-atom table, alias/freshness analysis of the copying accessors, operand-preservation by the mutation analysis, '
                        'row alignment of extend/atoms_extend, sibling agreement of the symbols/masses accessors, integer-index handling. '
                        'Not decided: equality with a record-per-atom model over arbitrary histories.')
-    ctx.run_rules([rect_guard, copy_discipline, preserve, row_align, type_lists, construct_lists, indexing])
+    ctx.run_rules([rect_guard, copy_discipline, preserve, row_align, type_lists, construct_lists, indexing, atoms_prop_scaled])
